@@ -7,6 +7,7 @@ F = "factor_intermediates.py"
 O = "generate_code/optimize_contractions.py"
 D = "derivative.py"
 SP = "spatial_orbitals.py"
+M = "misc.py"
 
 _NORM_OLD = ("                i1 = pref\n                for o in term:\n                    i1 *= self.overlap(o)\n"
              "                    if i1 is S.Zero:\n                        break\n                norm_factor += i1.expand()")
@@ -227,4 +228,39 @@ WITNESSES = [
     dict(id="c19-ok-name-demorgan", prop="C19", file=E, expect=None,
          old="        if self.name != tensor_names.fock:  # no fock matrix\n            return pack_result(self.sympy, {}, target)\n        p, q = self.idx\n        # build a delta",
          new="        if not (self.name == tensor_names.fock):  # no fock matrix\n            return pack_result(self.sympy, {}, target)\n        p, q = self.idx\n        # build a delta"),
+    # R19i: one cache for all methods of an instance (keyed by the arguments only)
+    dict(id="c19-cache-shared-by-methods", prop="C19", file=M, expect="R19i",
+         old="        try:  # load/create the cache\n            fun_cache = self._function_cache[fname]\n        except AttributeError:\n"
+             "            self._function_cache = {}\n            fun_cache = self._function_cache[fname] = {}\n        except KeyError:\n"
+             "            fun_cache = self._function_cache[fname] = {}\n",
+         new="        try:  # load/create the cache\n            fun_cache = self._function_cache\n        except AttributeError:\n"
+             "            fun_cache = self._function_cache = {}\n"),
+    # R19i: the cache lives on the decorator (shared by all instances)
+    dict(id="c19-cache-shared-by-instances", prop="C19", file=M, expect="R19i",
+         edits=[("    fname = function.__name__\n", "    fname = function.__name__\n    shared_cache = {}\n"),
+                ("        try:  # try to load the data from the cache\n            return fun_cache[args]\n        except KeyError:\n"
+                 "            fun_cache[args] = result = function(self, *args)\n        return result",
+                 "        try:  # try to load the data from the cache\n            return shared_cache[args]\n        except KeyError:\n"
+                 "            shared_cache[args] = result = function(self, *args)\n        return result")]),
+    # R19i: only the first argument addresses the entry
+    dict(id="c19-cache-key-truncated", prop="C19", file=M, expect="R19i",
+         old="            return fun_cache[args]\n        except KeyError:\n            fun_cache[args] = result = function(self, *args)",
+         new="            return fun_cache[args[:1]]\n        except KeyError:\n            fun_cache[args[:1]] = result = function(self, *args)"),
+    # R19i: cached_property keyed by nothing
+    dict(id="c19-property-cache-flat", prop="C19", file=M, expect="R19i",
+         old="        try:\n            return self._property_cache[function]\n        except AttributeError:\n            self._property_cache = {}\n"
+             "            x = self._property_cache[function] = function(self)\n            return x\n        except KeyError:\n"
+             "            x = self._property_cache[function] = function(self)\n            return x",
+         new="        try:\n            return self._property_cache\n        except AttributeError:\n"
+             "            x = self._property_cache = function(self)\n            return x"),
+    # the caches rewritten with get/setdefault and membership tests instead of exceptions
+    dict(id="c19-ok-cache-without-exceptions", prop="C19", file=M, expect=None,
+         edits=[("        try:  # load/create the cache\n            fun_cache = self._function_cache[fname]\n        except AttributeError:\n"
+                 "            self._function_cache = {}\n            fun_cache = self._function_cache[fname] = {}\n        except KeyError:\n"
+                 "            fun_cache = self._function_cache[fname] = {}\n\n"
+                 "        try:  # try to load the data from the cache\n            return fun_cache[args]\n        except KeyError:\n"
+                 "            fun_cache[args] = result = function(self, *args)\n        return result",
+                 "        if not hasattr(self, \"_function_cache\"):\n            self._function_cache = {}\n"
+                 "        per_method = self._function_cache.setdefault(fname, {})\n        if args not in per_method:\n"
+                 "            per_method[args] = function(self, *args)\n        return per_method[args]")]),
 ]
